@@ -174,7 +174,8 @@ namespace cdsv {
     struct KeyModel {
         typedef int64_t State;
         static uint64_t hash( State const& s ) { return uint64_t( s ) * 0x9e3779b97f4a7c15ull; }
-        static bool idmatch( int64_t observed, int64_t st ) { return observed == -2 || observed == 0 || observed == st; }
+        // state 0 = present with unknown id (pinned by a lookup that does not reveal the item)
+        static bool idmatch( int64_t observed, int64_t st ) { return observed == -2 || observed == 0 || st == 0 || observed == st; }
         static bool step( State& s, Op const& o )
         {
             switch ( o.op ) {
